@@ -155,6 +155,8 @@ class Program:
             if np.isfinite(el) and 1e-100 < abs(el) < 1e100:
                 names += ["div_scaled_self", "div_scaled_self"]
         names += ["tensordot_scalar"]
+        if nd in (1, 2) and sym in ("U1", "U1U1", "Z4") and x.indices[0].subinfo is None and not ferm:
+            names += ["solve_charged"]
         if nd >= 1:
             names += ["align_axes_inplace"]
         if ferm:
@@ -340,6 +342,21 @@ class Program:
             gs.insert(rng.randint(0, len(gs)), ())
             ee = rng.random() < 0.7
             return name, [x], (lambda a: a.fuse(*gs, expand_empty=ee)), I()
+        if name == "solve_charged":
+            # an operator of non-zero total charge acting on x's first index: column table =
+            # row table shifted by the charge (every row charge meets one column charge)
+            r_ = x.indices[0]
+            q = rng.choice([c for c in gen.POOL[sym] if c != R.identity(sym)])
+            dual_c = rng.random() < 0.5
+            cm = {}
+            for c, d in r_.chargemap.items():
+                t = R.comb(sym, [q, R.neg(sym, R.signed(sym, c, r_.dual))])
+                cm[R.neg(sym, t) if dual_c else t] = d
+            col = sr.BlockIndex(dict(sorted(cm.items())), dual=dual_c)
+            op = gen.make_array(sr, rng, sym, [r_, col], charge=q, fermionic=False, kind=self.kind, values=self.vals, sparsity=0.0, exotic=False)
+            for s_, b_ in list(op.blocks.items()):
+                op.blocks[s_] = b_ + (5.0 * np.eye(np.asarray(b_).shape[0])).astype(np.asarray(b_).dtype)
+            return name, [op, x], (lambda a, b: sr.linalg.solve(a, b)), I()
         if name == "solve":
             # make the blocks well conditioned through public arithmetic: a + 5 * (block identity)
             eye = type(x)(**dict(indices=x.indices, charge=x.charge, blocks={s_: (5.0 * np.eye(np.asarray(b_).shape[0])).astype(np.asarray(b_).dtype) for s_, b_ in x.blocks.items()}, **({} if type(x).static_symmetry else {"symmetry": x.symmetry})))
